@@ -625,29 +625,22 @@ func (b *BaseStore) Load(ctx context.Context, amount int) error {
 
 			span.AddEvent("store-head-loaded")
 
-			// Join keeps the last `size` entries of the merged log and panics
-			// when there are fewer: only ask for a trim when one is needed
-			size := amount
-			if size > -1 {
-				merged := oplog.Len()
-				for _, e := range l.GetEntries().Slice() {
-					if _, held := oplog.Get(e.GetHash()); !held {
-						merged++
-					}
-				}
-
-				if size >= merged {
-					size = -1
-				}
-			}
-
+			// Join(l, n) keeps the last n entries of what the merged log LISTS and
+			// panics when it lists fewer. How many it will list cannot be told
+			// beforehand (a log with holes lists fewer entries than it holds):
+			// merge first, and ask for the trim — joining the same log again adds
+			// nothing — only once the listing is known to be longer than the limit
 			span.AddEvent("store-heads-joining")
-			if _, inErr = oplog.Join(l, size); inErr != nil {
+			if _, inErr = oplog.Join(l, -1); inErr != nil {
 				span.AddEvent("store-heads-joining-failed")
 				// err = fmt.Errorf("unable to join log: %w", err)
 				// TODO: log
 				_ = inErr
 			} else {
+				if amount > -1 && oplog.Values().Len() > amount {
+					_, _ = oplog.Join(l, amount)
+				}
+
 				span.AddEvent("store-heads-joined")
 			}
 		}(h)
